@@ -11,6 +11,7 @@ import (
 	"github.com/esimov/gogu/bstree"
 	"github.com/esimov/gogu/cache"
 	"github.com/esimov/gogu/heap"
+	"github.com/esimov/gogu/list"
 	"github.com/esimov/gogu/queue"
 	"github.com/esimov/gogu/stack"
 	"github.com/esimov/gogu/trie"
@@ -1292,7 +1293,6 @@ func init() {
 	}
 }
 
-
 // ---------------------------------------------------------------- C03: comparators from one constructor
 
 // Two comparators may be the same code with different captured state (closures from one constructor, one
@@ -1362,7 +1362,6 @@ func init() {
 		rep.Inc("transitions", n*6)
 	}
 }
-
 
 // ---------------------------------------------------------------- C05 / C07: more shapes (round 6)
 
@@ -1458,5 +1457,118 @@ func init() {
 			}
 		}
 		rep.Inc("transitions", 30)
+	}
+}
+
+// ---------------------------------------------------------------- C09 / C19: identity of what is handed out and handed in
+
+func init() {
+	prev9 := extras["C09"]
+	extras["C09"] = func(rep *core.Report) {
+		if prev9 != nil {
+			prev9(rep)
+		}
+		// keys a caller has taken out of one result stay what they are while later queries run (a Go
+		// string never changes -- unless it is a view into a buffer the trie goes on writing to)
+		tr := trie.New[string, int](queue.New[string]())
+		stored := []string{"alpha", "alp", "beta", "be", "gamma", "g", "alphabet"}
+		for i, k := range stored {
+			tr.Put(k, i)
+		}
+		var kept, copies []string
+		take := func(q trie.Queuer[string], err error) {
+			if err != nil {
+				return
+			}
+			for q.Size() > 0 {
+				k, e := q.Dequeue()
+				if e != nil {
+					break
+				}
+				kept = append(kept, k)
+				copies = append(copies, strings.Clone(k))
+			}
+		}
+		take(tr.Keys())
+		take(tr.StartsWith("al"))
+		take(tr.StartsWith("g"))
+		tr.StartsWith("b")
+		tr.Keys()
+		tr.LongestPrefix("alphabetical")
+		tr.Put("zeta", 9)
+		tr.Keys()
+		for i := range kept {
+			if kept[i] != copies[i] {
+				rep.Add("Trie.Keys/keys-handed-out-change-later", fmt.Sprintf("key number %d taken out of an earlier result was %q and reads %q after later queries", i+1, copies[i], kept[i]), "Keys / StartsWith results kept by the caller, then more queries and a Put", nil)
+				break
+			}
+		}
+		rep.Inc("transitions", 12)
+	}
+	prev19 := extras["C19"]
+	extras["C19"] = func(rep *core.Report) {
+		if prev19 != nil {
+			prev19(rep)
+		}
+		// elements whose == is identity: two distinct pointers to equal values are two different elements
+		// ("the node found for a given value" is the node holding THAT value)
+		type rec struct{ n int }
+		p, q, r := &rec{1}, &rec{1}, &rec{1}
+		each := func(f func(func(*rec))) string {
+			var out []string
+			f(func(v *rec) {
+				switch v {
+				case p:
+					out = append(out, "p")
+				case q:
+					out = append(out, "q")
+				case r:
+					out = append(out, "r")
+				default:
+					out = append(out, "?")
+				}
+			})
+			return strings.Join(out, " ")
+		}
+		check := func(name, step, got, want string) {
+			if got != want {
+				rep.Add(name+"/pointer-elements/acts-on-an-equal-looking-element", fmt.Sprintf("after %s the list is [%s], want [%s] (p, q, r are distinct pointers to equal records)", step, got, want), name+" of *rec: Init(p); Append(q); "+step, nil)
+			}
+		}
+		{
+			l := list.Init(p)
+			l.Append(q)
+			if n, ok := l.Find(q); !ok || n == nil || n.Value != q {
+				rep.Add("SList.Find/pointer-elements/finds-an-equal-looking-element", "Find(q) on [p q] does not return the node holding q", "SList of *rec: Init(p); Append(q); Find(q)", nil)
+			}
+			if _, ok := l.Find(r); ok {
+				rep.Add("SList.Find/pointer-elements/finds-an-equal-looking-element", "Find(r) on [p q] reports r as present", "SList of *rec: Init(p); Append(q); Find(r)", nil)
+			}
+			l.Replace(q, r)
+			check("SList.Replace", "Replace(q, r)", each(l.Each), "p r")
+			if n, ok := l.Find(r); ok {
+				l.Append(q)
+				l.Delete(n)
+				check("SList.Delete", "Replace(q, r); Append(q); Delete(Find(r))", each(l.Each), "p q")
+			}
+		}
+		{
+			l := list.InitDList(p)
+			l.Append(q)
+			if n, ok := l.Find(q); !ok || n == nil || n.Value != q {
+				rep.Add("DList.Find/pointer-elements/finds-an-equal-looking-element", "Find(q) on [p q] does not return the node holding q", "DList of *rec: InitDList(p); Append(q); Find(q)", nil)
+			}
+			if _, ok := l.Find(r); ok {
+				rep.Add("DList.Find/pointer-elements/finds-an-equal-looking-element", "Find(r) on [p q] reports r as present", "DList of *rec: InitDList(p); Append(q); Find(r)", nil)
+			}
+			l.Replace(q, r)
+			check("DList.Replace", "Replace(q, r)", each(l.Each), "p r")
+			if n, ok := l.Find(r); ok {
+				l.Append(q)
+				l.Delete(n)
+				check("DList.Delete", "Replace(q, r); Append(q); Delete(Find(r))", each(l.Each), "p q")
+			}
+		}
+		rep.Inc("transitions", 16)
 	}
 }
